@@ -358,6 +358,7 @@ MorphClauses(e) ==
       n == Len(es)
       okc == RetTier(e) /\ A(e) /\ Len(r) = n
   IN [ C14_morph_mismatched_counts_rejected |-> (Len(es) # Len(tg)) => ~Ok(e),
+       C14_morph_equal_counts_succeeds |-> (Len(es) = Len(tg)) => Ok(e),
        C14_morph_labels_kept |-> (RetTier(e)) => Labels(r) = Labels(es),
        C14_morph_durations |-> (okc /\ n = Len(tg)) => \A i \in 1..n :
             r[i].e - r[i].s = IF sel(es[i].l) THEN tg[i].e - tg[i].s ELSE es[i].e - es[i].s,
